@@ -5,6 +5,7 @@ PROP = dict(
     check="Run_C15.check",
     race=True,
     shrink_field="ops",
+    max_reports=2,
     technique="Rocq proof (invariants over all event sequences of an updater/watcher model built on the shared store model) + traces of the real Store/Updater under testing/synctest and -race replayed on the model in the kernel",
     level_text="TODO",
     level_note="TODO",
